@@ -37,6 +37,13 @@ class Collector:
                               r"send_command|force_send_command|register_receiver|reporter_ready|flush|set_reporter)$|::start$")
             self.fn = inline_calls(facts, self.fn, lambda g: g.path.startswith("fastrace::collector::global_collector::")
                                    and not keep.search(g.path) and " as " not in g.path)
+            # ... and through local closures it builds and calls itself (`let mut deliver = |id, set| {..}; deliver(a, b)`)
+            from .core import inline_closure_calls
+            nf = inline_closure_calls(facts, self.fn)
+            if nf is not self.fn:
+                nf.inlined = True
+                nf.inlined_paths = set(getattr(nf, "inlined_paths", set())) | set(getattr(self.fn, "inlined_paths", set()))
+                self.fn = nf
         self.roles = {}
         adt = facts.adts.get(GC)
         if adt:
